@@ -33,6 +33,7 @@ def cand_axiom(ex):
 
 
 class LegalOperations(Contract):
+    pure = True   # does not modify any pre-existing object
     file = "pgmpy/estimators/HillClimbSearch.py"
     qual = "HillClimbSearch._legal_operations"
 
